@@ -1,11 +1,11 @@
 """C04 — no file content can corrupt memory, crash or hang read, query, merge or write."""
-import vlib, gens
+import vlib, gens, trees
 from checklib import Scenario
 
 RULE = ("arbitrary byte strings as file content (uniform bytes, structural-character-heavy, mutated conventional files, NUL and "
         "8-bit bytes, no trailing newline, very long lines) x 7 delimiter sets (+ exotic ones) x 3 comment sets (+ a blank) x "
         "{default, JOIN_SAME_ENTRIES, PYTHON_STYLE}; after a successful read: every listing, every typed and extended getter "
-        "on every listed key, merge with a second random file in both roles, write and read back; run under ASan+UBSan and once more under clang MemorySanitizer with a "
+        "on every listed key, merge with a second random file in both roles, write and read back; the same contents as main file and drop-ins of layered reads; run under ASan+UBSan and once more under clang MemorySanitizer with a "
         "per-run timeout; the return code must be success or one of the four parse codes (theorem), every sanitizer report, "
         "crash or timeout is a failing input; values are additionally compared with the model (fidelity); distinct by bytes")
 
@@ -34,13 +34,28 @@ def gen(rng, tier):
                 "write 2", "reread 4 0", "getall 4"]
         obs = [True] + [False] * (len(cmds) - 1)
         out.append(Scenario(cmds, obs, tags=("py" if py else "join" if jn else "default",)))
+    # the same arbitrary contents as main file and drop-ins of a layered read (several files per directory, any of
+    # them refused by the parser): the failure paths of the directory readers run on the same bytes
+    for _ in range(n // 5):
+        dl = rng.choice(gens.DELIMS); cm = rng.choice(gens.COMMENTS)
+        cmds = [trees.fsdir(b"/l"), trees.fsdir(b"/l/x.conf.d"), trees.fsdir(b"/m"), trees.fsdir(b"/m/x.conf.d")]
+        if rng.random() < 0.7: cmds.append(trees.fsfile(b"/l/x.conf", rfile(rng)))
+        for d in (b"/l/x.conf.d", b"/m/x.conf.d"):
+            for nm in rng.sample([b"1.conf", b"2.conf", b"3.conf", b"a.conf"], rng.randrange(0, 4)):
+                cmds.append(trees.fsfile(d + b"/" + nm, rfile(rng) if rng.random() < 0.7 else b"k=ok\n[s]\nj=1\n"))
+        k = len(cmds)
+        args = "%s %s %s x636f6e66 %s %s" % (vlib.enc(b"/l"), vlib.enc(b"/m"), vlib.enc(b"x"), vlib.enc(dl), vlib.enc(cm))
+        cmds += ["readdirs 0 " + args, "getall 0", "history " + args,
+                 "newopts 1 " + vlib.enc(b"PARSING_DIRS=/l:/m" + rng.choice([b"", b";JOIN_SAME_ENTRIES=1", b";PYTHON_STYLE=1"])),
+                 "readconfig 1 - - %s x636f6e66 %s %s" % (vlib.enc(b"x"), vlib.enc(dl), vlib.enc(cm)), "getall 1"]
+        out.append(Scenario(cmds, [False] * k + [True, False, True, False, True, False], tags=("layered",)))
     return out
 
 def oracle(s, ilines):
     for c, l in zip(s.cmds, ilines):
-        if c.startswith("parse") or c.startswith("reread"):
+        if c.startswith("parse") or c.startswith("reread") or c.startswith("readdirs") or c.startswith("readconfig") or c.startswith("history"):
             code = l.split()[0] if l else ""
-            if code not in ("rc=0", "rc=9", "rc=10", "rc=11", "rc=12", "noobj"):
+            if code not in ("rc=0", "rc=9", "rc=10", "rc=11", "rc=12", "noobj") and not (code == "rc=3" and not c.startswith("parse") and not c.startswith("reread")):
                 return "reading returned an undocumented code: %s" % l[:80]
     return None
 
